@@ -74,6 +74,21 @@ def run(tier, seed):
         chosen = rnd.sample(hot, min(120, len(hot))) + rnd.sample(rest, 180)
     else:
         chosen = ex
+    # two initiators, exhaustively: all behaviours in which the other initiator's message is handled between the second
+    # and the third message of an attempt (quick), plus a sample of the rest (thorough)
+    ex2, g2, d2 = vlib.tlc_collect("C02", "Pase.tla", "GenPaseEx2.cfg", workers=6, timeout=1800)
+    ex2 = [json.loads(x) for x in sorted({json.dumps(b, sort_keys=True) for b in ex2})]
+    def crossed(ops):
+        for i in (1, 2):
+            st = [k for k, o in enumerate(ops) if o["op"] == "Step" and o["i"] == i]
+            if len(st) >= 3 and any(o["op"] == "Step" and o["i"] != i for o in ops[st[1]:st[2]]):
+                return True
+        return False
+    cross = [b for b in ex2 if crossed(b)]
+    if len(cross) < 20:
+        raise vlib.ToolError("two-initiator generator produced only %d crossing behaviours" % len(cross))
+    chosen = chosen + cross + ([] if quick else rnd.sample([b for b in ex2 if not crossed(b)], 3000))
+    g1 += g2
     sim, gen_states = vlib.tlc_sim("C02", "Pase.tla", "GenPase.cfg", num=40 if quick else 600, depth=40, seed=seed, timeout=2400)
     sim = [json.loads(x) for x in sorted({json.dumps(b, sort_keys=True) for b in sim})]
     if quick:
@@ -108,7 +123,7 @@ def run(tier, seed):
         "states": mc["distinct"] + states, "transitions": mc["generated"] + gen_states + g1, "traces_validated_against_impl": n_runs, "exhaustive": False,
         "design_model_runs": [{k2: mc[k2] for k2 in ("cfg", "generated", "distinct", "depth", "wall_s")}], "design_models_exhaustive": True,
         "model_sensitivity": {"cfg": "MCPase_orig.cfg", "violated": sens["violated"]},
-        "generator": {"exhaustive_cfg": "GenPaseEx.cfg", "exhaustive_behaviours": len(ex), "replayed_of_them": len(chosen), "simulated": len(sim), "harness_made": len(made_schedules())},
+        "generator": {"exhaustive_cfg": "GenPaseEx.cfg", "exhaustive_behaviours": len(ex), "two_initiator_exhaustive_behaviours": len(ex2), "crossing_behaviours_replayed": len(cross), "replayed_of_them": len(chosen), "simulated": len(sim), "harness_made": len(made_schedules())},
         "replay": summ,
         "trace_validation": {"spec": "PaseTrace.tla (Layer P = PaseProp.tla)", "events": len(ev), "states": states, "rejected_runs": len(rej),
                              "pase_sessions_admitted": n_sess, "failed_proofs_presented": sum(1 for e in ev if e.get("ev") == "Proof"),
